@@ -84,6 +84,37 @@ HISTORY = {
     'C19_G': 'UNDECIDED at first; caught by evaluating the dispersion identity at points of the atmosphere box when the exact decision is out of reach',
     'C19_H': 'missed at first; caught by the confirmed-rounding model',
     'C19_I': 'missed at first; caught by the domain guards of the plane routines',
+    # round 5 (ids J/K/L)
+    'C01_J': 'UNDECIDED at first (structure of the zone block not recognised); caught by the zone / central-meridian lattice table (constant arguments fold exactly)',
+    'C01_K': 'UNDECIDED at first; caught by deciding string tests over the finite set of labels geo2grid returns',
+    'C01_L': 'missed at first; caught by the lattice table (zone 60 -> 0)',
+    'C02_K': 'NOT caught: the change only matters for an Ellipsoid built from decimal.Decimal - an argument type the static model does not have (numbers are exact rationals)',
+    'C02_L': 'missed at first (patch re-based after the convergence-sign repair); caught by the division rule R-DIV (lat / abs(lat) at lat = 0)',
+    'C03_J': 'missed at first (patch re-based after the height repair); caught by the pass-limit rule derived from the contraction factor',
+    'C03_K': 'missed at first (re-based); the two height formulas are each compared at the fixed point, R-COND looks at each arm where its condition selects it',
+    'C03_L': 'missed at first; caught once the wrapper wiring was also evaluated with angle objects',
+    'C05_J': 'missed at first; caught by the cancelling-denominator rule (1 - X**2 reaches 0 on equatorial lines)',
+    'C05_L': 'caught by the angle-parameter rule once it ran before the formula rules',
+    'C06_K': 'missed at first (C13 answered ANALYSIS-ERROR); caught by R-DOMAIN: no cholesky / inv on possibly singular covariances',
+    'C06_L': 'missed at first (C13 answered ANALYSIS-ERROR); caught after np.empty cells became undetermined values of their own',
+    'C07_L': 'UNDECIDED at first; caught by R-TRUNC: int() of a constant expression folded a second time in double arithmetic',
+    'C08_K': 'missed at first; caught by R-DIV on the conversions (hp / abs(hp) at 0)',
+    'C08_L': 'NOT caught: hp2dec still converts numbers correctly; only a digit string or an HPAngle passed in fails - an argument type outside the model',
+    'C09_K': 'missed at first; caught after class-level containers joined the mutable-default rule',
+    'C10_J': 'UNDECIDED at first; caught after float(f"{x:.8g}") was modelled as a rounding to significant digits',
+    'C10_K': 'caught by the angle-parameter rule on psfandgridconv (added in this round)',
+    'C10_L': 'first only C02; C10 now demands that latitude and convergence are negated for the same spellings of the hemisphere argument',
+    'C11_K': 'ANALYSIS-ERROR at first (the entry did not fold, the catalogue shrank); caught after dates became typed in C11',
+    'C12_K': 'NOT caught: the sign is lost only for a numpy.bool_ flag (negative numpy scalar operands) - an argument type outside the model',
+    'C14_J': 'missed at first; caught by R-DIV with every family coincident (same zone and same easting)',
+    'C14_L': 'missed at first; caught by the rule on exceptions raised on the residual after the Newton loop',
+    'C15_J': 'UNDECIDED at first; float(angle object) decided per class from __float__',
+    'C15_K': 'UNDECIDED at first; a constructed object against a numeric reference is a type difference',
+    'C15_L': 'UNDECIDED at first; hemi_north from the latitude sign compared with geo2grid\'s own label at latitudes -1, 0, +1',
+    'C18_K': 'ANALYSIS-ERROR at first; caught after the substring form of the VEL test was recognised',
+    'C18_L': 'missed at first; caught by the single-clock-reading rule',
+    'C19_L': 'missed at first; caught by definite-assignment analysis (no branch for exactly 0 degrees)',
+    'C20_L': 'ANALYSIS-ERROR at first; caught by the results-as-keys rule',
     'C08_C': 'patch re-based after the HP repairs; first UNDECIDED, caught after str(float) was modelled as a non-fixed-point rendering',
 }
 
